@@ -251,7 +251,6 @@ def accuracy_matrix(prop, tier, seed):
                 # twenty designs (late-run subsets whose set order is not the sorted order)
                 M.append(_c("PaVeBaPartialGP", "VVD2c", order=("Wint", WI["orth"]), eps=e, script=dict(kind="rect", G=5), max_steps=80))
                 M.append(_c("Auer", "VVD2c", eps=e, empirical=True, script=dict(kind="auer", G=5), max_steps=80))
-                M.append(_c("PaVeBa", "VVD2c", order=("Wint", WI["acute"]), eps=e, script=dict(kind="ball", G=5), max_steps=80))
             else:
                 for cn in ("orth", "acute", "obtuse", "pyobt"):
                     M.append(_c("VOGP", "VVD2a", order=("Wint", WI[cn]), eps=e, script=dict(kind="rect", G=4), max_steps=60))
@@ -279,6 +278,34 @@ def accuracy_matrix(prop, tier, seed):
     return out
 
 
+def point_twins_explain(T):
+    """Known finding F14 (PaVeBa family): two designs with the SAME true value whose displayed regions are both single points dominate
+    each other with zero slack and are discarded in the same round.  True iff the run contains such a round and every design the returned P
+    fails to dominate is (dominated by) a member of such a pair, and no member of P violates the gap bound - any other inaccuracy is not
+    explained by it and is reported under the ordinary signature."""
+    F = T.get("final") or {}
+    truth = T.get("truth")
+    if not truth or AT.ALG_FAM[T["alg"]] != "paveba":
+        return False
+    P = set(F["P"])
+    wd = {tuple(p) for p in F["wd"]}
+    # pairs are <<j, i>> : j (weakly) dominates / exceeds i
+    if any(tuple(p)[1] in P for p in F["ex"]):
+        return False
+    uncovered = {i for i in range(1, T["n"] + 1) if i not in P and not any((j, i) in wd for j in P)}
+    twins = set()
+    for s in T["steps"]:
+        gone = set(s["pre"]["S"]) - set(s["post"]["S"]) - set(s["post"]["P"])
+        pts = set(s.get("points", []))
+        for a in gone & pts:
+            for b in gone & pts:
+                if a != b and truth[a - 1] == truth[b - 1]:
+                    twins.add(a)
+    if not twins or not uncovered:
+        return False
+    return all(i in twins or any((a, i) in wd for a in twins) for i in uncovered)
+
+
 def accuracy_runs(ctx, prop):
     """leg for C01 / C05: the accuracy statement on runs of the real classes over 10 designs with valid scripted histories"""
     cfgs = accuracy_matrix(prop, ctx.tier, ctx.seed)
@@ -303,6 +330,8 @@ def accuracy_runs(ctx, prop):
             W = AT.make_order(tuple(c["order"])).ordering_cone.W
         kind = c.get("type") or ("empirical" if c.get("empirical") else c.get("confidence_type") or c["script"]["kind"])
         sig = "inaccurate|%s|%s|cone=%s" % (c["alg"], kind, cone_class(W) if "order" in c else "orth")
+        if point_twins_explain(T):
+            sig = "inaccurate|point-twins-discard-each-other|paveba-family"
         ctx.violation(sig, {"cfg": c, "final": T["final"], "truth": "scripted (seed)", "steps": len(T["steps"])},
                       "%s with valid displayed regions in every round (10 designs, scripted posterior) returned P=%s which is not accurate (%s)" % (
                           c["alg"], T["final"]["P"], c))
